@@ -17,7 +17,7 @@ from typing import List, Optional
 from vlib import fakedb
 from vlib import framework
 from vlib.framework import Harness
-from vlib.symx import assume, concrete, native
+from vlib.symx import assume, concrete, native, pick
 
 from sqlalchemy import exc
 from sqlalchemy import pool as sa_pool
@@ -76,6 +76,39 @@ FILTERS = {
 }
 
 
+# Filters applied *late*: some rows are fetched first, through the object ``pre`` builds (a plain Result, or an
+# already derived ScalarResult / MappingResult), THEN ``late`` modifies that same object (or derives a view from
+# it), and fetching continues through what ``late`` returns.  cols/kind/uniq describe the delivered objects before
+# (0) and after (1) the late filter; ``yp``: the late filter is yield_per(k).
+LATE = {
+    "uniq1": dict(ncols=1, pre=lambda r: r, cols0="a", kind0="row", late=lambda r, v, k: v.unique(),
+                  cols="a", kind="row", uniq=True),
+    "uniq_cols0": dict(ncols=2, pre=lambda r: r, cols0="ab", kind0="row", late=lambda r, v, k: v.columns(0).unique(),
+                       cols="a", kind="row", uniq=True),
+    "uniq_strategy": dict(ncols=2, pre=lambda r: r, cols0="ab", kind0="row", late=lambda r, v, k: v.unique(_key0),
+                          cols="ab", kind="row", uniq=True),
+    "uniq_scalars": dict(ncols=2, pre=lambda r: r, cols0="ab", kind0="row", late=lambda r, v, k: v.unique().scalars(),
+                         cols="a", kind="scalar", uniq=True),
+    "columns10": dict(ncols=2, pre=lambda r: r, cols0="ab", kind0="row", late=lambda r, v, k: v.columns(1, 0),
+                      cols="ba", kind="row", uniq=False),
+    "scalars0": dict(ncols=2, pre=lambda r: r, cols0="ab", kind0="row", late=lambda r, v, k: v.scalars(),
+                     cols="a", kind="scalar", uniq=False),
+    "mappings": dict(ncols=2, pre=lambda r: r, cols0="ab", kind0="row", late=lambda r, v, k: v.mappings(),
+                     cols="ab", kind="map", uniq=False),
+    "yield_per": dict(ncols=2, pre=lambda r: r, cols0="ab", kind0="row", late=lambda r, v, k: v.yield_per(k),
+                      cols="ab", kind="row", uniq=False, yp=True),
+    # the filter object exists already and has been fetched from when it is modified
+    "scalars_then_uniq": dict(ncols=2, pre=lambda r: r.scalars(), cols0="a", kind0="scalar", late=lambda r, v, k: v.unique(),
+                              cols="a", kind="scalar", uniq=True),
+    "mappings_then_uniq": dict(ncols=1, pre=lambda r: r.mappings(), cols0="a", kind0="map", late=lambda r, v, k: v.unique(),
+                               cols="a", kind="map", uniq=True),
+    "mappings_then_columns": dict(ncols=2, pre=lambda r: r.mappings(), cols0="ab", kind0="map",
+                                  late=lambda r, v, k: v.columns(1, 0), cols="ba", kind="map", uniq=False),
+    "scalars_then_yp": dict(ncols=2, pre=lambda r: r.scalars(), cols0="a", kind0="scalar", late=lambda r, v, k: v.yield_per(k),
+                            cols="a", kind="scalar", uniq=False, yp=True),
+}
+
+
 def _ops_for(kind: str):
     if kind == "scalar":
         return [o for o in range(len(OPS)) if o not in (FETCHONE, SCALAR, SCALAR_ONE, SCALAR_ONE_OR_NONE)]
@@ -88,8 +121,11 @@ def _ops_for(kind: str):
 # lazy row sources
 
 
+_RELAX_CON = [False]  # classification re-runs an input under a variant: other rows may get produced
+
+
 def _mkrow(vals, i, ncols, con):
-    if con:
+    if con and not _RELAX_CON[0]:
         # value domain 0..2 where values are hashed (unique()); constrained lazily: only rows that are
         # actually produced constrain the path.  Without uniquing the values stay unconstrained ints.
         v = vals[i]
@@ -139,7 +175,21 @@ class _Model:
         self.uniq, self.yp, self.variant = uniq, yp, variant
         self.pos = 0
         self.seen = []
+        self.delivered = []  # first-column values of the rows handed out so far
         self.state = OPEN
+        self.soft_before = False  # (classification only) soft closed before the single-row call that closed it
+
+    def refilter(self, cols, kind, uniq, yp, earlier_rows_count: bool):
+        """a filter is applied while rows have been fetched already: it governs the remaining rows.  For
+        unique(): ``earlier_rows_count`` selects the reading -- do duplicates of rows delivered *before*
+        unique() was applied count as seen (True) or does the set of seen rows start empty (False)?"""
+        self.cols, self.kind, self.uniq, self.yp = cols, kind, uniq, yp
+        self.seen = list(self.delivered) if (uniq and earlier_rows_count) else []
+
+    def soft_dead(self) -> bool:
+        """(classification only) a variant that lets the result stay merely soft closed after a single-row call"""
+        return self.state == DEAD and (self.variant == "soft-close-after-single-row"
+                                       or (self.variant == "no-hard-close-when-exhausted-before" and self.soft_before))
 
     # -- deliverable rows -----------------------------------------------------------------
     def pull(self):
@@ -152,6 +202,7 @@ class _Model:
                 if v in self.seen:
                     continue
                 self.seen.append(v)
+            self.delivered.append(self.vals[i])
             return i
         return None
 
@@ -177,6 +228,7 @@ class _Model:
         if self.pos < self.n:
             i = self.pos
             self.pos += 1
+            self.delivered.append(self.vals[i])
             return i
         return None
 
@@ -225,28 +277,29 @@ class _Model:
         if op == CLOSE:
             self.state = HARD
             return kind == "ok" and got is None
-        if self.state == HARD:
-            # Result.close(): "cause any subsequent iteration or row fetching to raise ResourceClosedError"
+        if self.state != OPEN:
+            # HARD: Result.close() -- "cause any subsequent iteration or row fetching to raise ResourceClosedError".
+            # DEAD: after a "single row or value" method.  first(): "Closes the result set and discards remaining
+            # rows"; scalar(): "the object is fully closed, e.g. the CursorResult.close() method will have been
+            # called"; changelog (#7274): "All Result objects will now consistently raise ResourceClosedError if
+            # they are used after a hard close, which includes the 'hard close' that occurs after calling 'single
+            # row or value' methods like Result.first() and Result.scalar()" (test_resultset: "first(), scalar() and
+            # one() which want to embed a hard close") -> the same contract as after close(), whatever the outcome
+            # of the single-row call was (row, None, NoResultFound, MultipleResultsFound).
             if kind == "closed":
                 return True
-            # a request for zero rows fetches nothing: the empty outcome is accepted as well
+            # a request for zero rows fetches nothing: the empty outcome is accepted as well (not documented)
             if op in SIZED and n == 0:
                 return kind == "stop" if op == PART else (kind == "ok" and self.is_list(got, []))
+            if self.state == DEAD and (self.variant == "soft-close-after-single-row"
+                                       or (self.variant == "no-hard-close-when-exhausted-before" and self.soft_before)):
+                # (classification only) the result behaves as merely soft closed: empty outcomes
+                if op == FETCHONE or op in (FIRST, SCALAR, ONE_OR_NONE, SCALAR_ONE_OR_NONE):
+                    return kind == "ok" and got is None
+                if op in (FETCHMANY, ALL, FETCHALL):
+                    return kind == "ok" and self.is_list(got, [])
+                return kind == ("none" if op in (ONE, SCALAR_ONE) else "stop")
             return False
-        if self.state == DEAD:
-            # after first()/one()/scalar()...: closed and remaining rows discarded; whether that close is the
-            # "hard" kind is not documented uniformly -> either ResourceClosedError or the empty outcome
-            if kind == "closed":
-                return True
-            if op == FETCHONE:
-                return kind == "ok" and got is None
-            if op in (FETCHMANY, ALL, FETCHALL):
-                return kind == "ok" and self.is_list(got, [])
-            if op in (FIRST, SCALAR, ONE_OR_NONE, SCALAR_ONE_OR_NONE):
-                return kind == "ok" and got is None
-            if op in (ONE, SCALAR_ONE):
-                return kind == "none"
-            return kind == "stop"  # PART, NEXT, ITER
         # OPEN
         if op == FETCHONE:
             return kind == "ok" and self.is_opt(got, self.pull())
@@ -398,47 +451,67 @@ def _in(c, rng) -> bool:
     return rng[0] <= c < rng[1]
 
 
-def _risky(risk: str, T: _Table, codes) -> bool:
+def _risky(risk: str, tables, codes) -> bool:
     """Histories on which a defect already attributed to a specific root cause (see classify) can show.
-    Purely a *partition* of the history space into slices (tail=1: the complement, tail=2: these), so that
-    the framework's per-slice cap on recorded counterexamples bounds the replay work; both parts are explored
-    in full with the same oracle."""
-    last = len(codes) - 1
+    Purely a *partition* of the history space into slices (tail=1: the complement, tail=2: these); both parts
+    are explored in full with the same oracle."""
     for t in range(len(codes)):
-        c = codes[t]
+        c, T = codes[t], tables[t]
         if "u" in risk and t >= 1 and _in(c, T.only_one):
             return True  # first()/one()/scalar*() after rows were consumed, under unique()
-        if "m" in risk and t < last and (c == T.close or _in(c, T.only_one)):
-            return True  # something follows a closing call on a MergedResult
         if "d" in risk and t >= 1 and _in(c, T.group[GROUP_SIZED]):
             return True  # fetchmany()/partitions() after another fetch, dynamic_yield_per
-        if "f" in risk and t < last:
-            for z in T.zero:
-                if c == z:
-                    return True  # something follows fetchmany(0) on the fully buffered strategy
     return False
 
 
-def _drive(view, model, T, codes, g0, g1, g2, risk, tail, after=None):
+class _Run:
+    """what one history runs against: the object calls go through before / after the late filter, the call
+    alphabets, the model(s) -- more than one when the documentation leaves two readings open; a history passes
+    if one reading explains every observation"""
+
+    def __init__(self, view, models, T, npre=0, late=None, T1=None, after=None):
+        self.view, self.models, self.T0, self.npre, self.late = view, models, T, npre, late
+        self.T1 = T if T1 is None else T1
+        self.after = after
+
+
+def _drive(run: _Run, codes, g0, g1, g2, risk, tail):
+    npre = run.npre
+    tables = [run.T0 if t < npre else run.T1 for t in range(len(codes))]
     # the part of the history space this slice is responsible for (range tests on the symbolic codes) ...
     for t in range(len(codes)):
+        T = tables[t]
         assume(0 <= codes[t] < len(T.calls))
         assume(t == 0 or codes[t] != T.fetchall)  # synonym of all(): only as a single call
+        if t < npre:
+            assume(codes[t] < T.group[GROUP_CLOSING][0])  # calls before the late filter leave the result open
     if g0 >= 0:
-        assume(_in(codes[0], T.group[g0]))
+        assume(_in(codes[0], tables[0].group[g0]))
     if g1 >= 0:
-        assume(_in(codes[1], T.group[g1]))
+        assume(_in(codes[1], tables[1].group[g1]))
     if g2 >= 0:
-        assume(_in(codes[2], T.group[g2]))
+        assume(_in(codes[2], tables[2].group[g2]))
     if tail:
-        assume(_risky(risk, T, codes) == (tail == 2))
-    # ... then call by call: decode (indexing the table with a symbolic code forks once per entry) and run
+        assume(_risky(risk, tables, codes) == (tail == 2))
+    # ... then call by call: decode (a balanced tree of solver-decided comparisons) and run
+    view, models = run.view, run.models
     for t in range(len(codes)):
-        op, n = T.calls[codes[t]]
+        if npre and t == npre:
+            view = run.late(view, models)
+        T = tables[t]
+        op, n = T.calls[pick(codes[t], len(T.calls))]
+        if op in ONLY_ONE and models[0].variant == "no-hard-close-when-exhausted-before":
+            # (classification only) was the result already soft closed -- by exhaustion -- before this call?
+            for m in models:
+                m.soft_before = bool(view._soft_closed)
         kind, got = _observe(view, op, n)
-        if not model.step(op, n, kind, got):
+        models = [m for m in models if m.step(op, n, kind, got)]
+        if not models:
             return False
-        if after is not None and not after(model):
+        # Result.closed: "True if this Result was hard closed ... not True if the Result was only soft closed"
+        if bool(view.closed) != (models[0].state != OPEN) and not models[0].soft_dead():
+            return False
+        if run.after is not None and not run.after(models[0]):
             return False
     return True
 
@@ -477,11 +550,34 @@ def _args(nmax, nops, vs, cs):
     return list(vs[:nmax]), list(cs[:nops])
 
 
-def _run_mem(src, flt, k, nmax, smin, smax, g0, g1, g2, tail, n, vals, codes, variant=None):
+def _models(vals, n, ncols, spec, k, variant, late: bool):
+    """late unique(): Result.unique() says the rows returned "will [be] filtered such that each row is returned
+    uniquely" and that "a Python set() is used to store these identities" -- it does not say whether rows
+    handed out before unique() was called are part of that set, so both readings are accepted (one model each)."""
+    if not late:
+        return [_Model(vals, n, ncols, spec["cols"], spec["kind"], spec["uniq"], k if spec.get("yp") else None, variant)]
+    ms = [_Model(vals, n, ncols, spec["cols0"], spec["kind0"], False, None, variant)]
+    if spec["uniq"]:
+        ms.append(_Model(vals, n, ncols, spec["cols0"], spec["kind0"], False, None, variant))
+    return ms
+
+
+def _late_fn(base, spec, k, variant):
+    def late(view, models):
+        out = spec["late"](base, view, k)
+        if variant == "late-reset-memoizations":
+            out._reset_memoizations()  # (classification only) what @_generative would have done
+        for j, m in enumerate(models):
+            m.refilter(spec["cols"], spec["kind"], spec["uniq"], k if spec.get("yp") else None, j == 1)
+        return out
+
+    return late
+
+
+def _run_mem(src, flt, k, npre, nmax, smin, smax, g0, g1, g2, tail, n, vals, codes, variant=None):
     assume(0 <= n <= nmax)
-    f = FILTERS[flt]
+    f = LATE[flt] if npre else FILTERS[flt]
     ncols = f["ncols"]
-    yp = k if f.get("yp") else None
     if src in ("frozen", "frozen_pre"):
         base = IteratorResult(SimpleResultMetaData(list(MD2 if ncols == 2 else MD1)), _gen(vals, 0, nmax, n, ncols, f["uniq"]))
         if src == "frozen_pre":
@@ -492,29 +588,31 @@ def _run_mem(src, flt, k, nmax, smin, smax, g0, g1, g2, tail, n, vals, codes, va
         other = frozen()
         other.fetchone()  # an independent thawed copy must not influence the next one
         view = frozen() if src == "frozen_pre" else f["apply"](frozen(), k)
+        return _drive(_Run(view, _models(vals, n, ncols, f, k, variant, False), _table(f["kind"], smin, smax)),
+                      codes, g0, g1, g2, _risk_of(src, flt, npre), tail)
+    base = _build_source(src, vals, n, ncols, k, f["uniq"])
+    models = _models(vals, n, ncols, f, k, variant, bool(npre))
+    if not npre:
+        run = _Run(f["apply"](base, k), models, _table(f["kind"], smin, smax))
     else:
-        view = f["apply"](_build_source(src, vals, n, ncols, k, f["uniq"]), k)
-    model = _Model(vals, n, ncols, f["cols"], f["kind"], f["uniq"], yp, variant)
-    return _drive(view, model, _table(f["kind"], smin, smax), codes, g0, g1, g2, _risk_of(src, flt), tail)
+        run = _Run(f["pre"](base), models, _table(f["kind0"], smin, smax), npre, _late_fn(base, f, k, variant),
+                   _table(f["kind"], smin, smax))
+    return _drive(run, codes, g0, g1, g2, _risk_of(src, flt, npre), tail)
 
 
-def _risk_of(src_or_strategy: str, flt: str) -> str:
+def _risk_of(src_or_strategy: str, flt: str, npre: int = 0) -> str:
     r = ""
-    if FILTERS[flt]["uniq"]:
+    if (LATE[flt] if npre else FILTERS[flt])["uniq"]:
         r += "u"
-    if src_or_strategy.startswith("merged"):
-        r += "m"
     if src_or_strategy == "chunked_dyn":
         r += "d"
-    if src_or_strategy.startswith("fully"):
-        r += "f"
     return r
 
 
-def h_mem(src: str, flt: str, k: int, nmax: int, nops: int, smin: int, smax: int, g0: int, g1: int, g2: int, tail: int, n: int,
-          v0: int, v1: int, v2: int, v3: int, v4: int, v5: int, c0: int, c1: int, c2: int, c3: int) -> bool:
+def h_mem(src: str, flt: str, k: int, npre: int, nmax: int, nops: int, smin: int, smax: int, g0: int, g1: int, g2: int, tail: int,
+          n: int, v0: int, v1: int, v2: int, v3: int, v4: int, v5: int, c0: int, c1: int, c2: int, c3: int) -> bool:
     vals, codes = _args(nmax, nops, (v0, v1, v2, v3, v4, v5), (c0, c1, c2, c3))
-    return _run_mem(src, flt, k, nmax, smin, smax, g0, g1, g2, tail, n, vals, codes)
+    return _run_mem(src, flt, k, npre, nmax, smin, smax, g0, g1, g2, tail, n, vals, codes)
 
 
 # ------------------------------------------------------------------------------------------
@@ -630,9 +728,9 @@ _WANT = {"default": _cursor.CursorFetchStrategy, "default_yp": _cursor.CursorFet
          "fully": _cursor.FullyBufferedCursorFetchStrategy, "fully_yp": _cursor.FullyBufferedCursorFetchStrategy}
 
 
-def _run_cur(strategy, flt, k, nmax, smin, smax, g0, g1, g2, tail, n, m, vals, codes, variant=None):
+def _run_cur(strategy, flt, k, npre, nmax, smin, smax, g0, g1, g2, tail, n, m, vals, codes, variant=None):
     assume(0 <= n <= nmax)
-    f = FILTERS[flt]
+    f = LATE[flt] if npre else FILTERS[flt]
     SRV.reset(vals, n, f["uniq"])
     conn = ENG.connect()
     try:
@@ -648,29 +746,41 @@ def _run_cur(strategy, flt, k, nmax, smin, smax, g0, g1, g2, tail, n, m, vals, c
         res = c2.exec_driver_sql("SELECT2")
         if type(res.cursor_strategy) is not _WANT.get(strategy, _cursor.BufferedRowCursorFetchStrategy):
             return False
-        yp = None
         if strategy.endswith("_yp"):
             res = res.yield_per(k)
-            yp = k
         if strategy == "default_yp" and type(res.cursor_strategy) is not _cursor.BufferedRowCursorFetchStrategy:
             return False
         cur = SRV.cursors[0]
-        view = f["apply"](res, k)
-        model = _Model(vals, n, 2, f["cols"], f["kind"], f["uniq"], yp, variant)
+        late_yp = bool(npre) and bool(f.get("yp"))
 
         def after(model):
             st = res.cursor_strategy
             if isinstance(st, _cursor.BufferedRowCursorFetchStrategy):
-                # "grows its buffer size ... up the max_row_buffer size"
-                if st._max_row_buffer >= 1 and (st._bufsize > st._max_row_buffer or len(st._rowbuffer) > st._max_row_buffer):
+                # "grows its buffer size ... up the max_row_buffer size" (a yield_per() applied late may find more
+                # rows buffered than its new size: they are drained, not refilled)
+                if st._max_row_buffer >= 1 and (st._bufsize > st._max_row_buffer
+                                                or (not late_yp and len(st._rowbuffer) > st._max_row_buffer)):
                     return False
             if model.state != OPEN:
-                # closed: the DBAPI cursor is released
+                # closed: the DBAPI cursor is released, CursorResult.closed says so
                 if not cur.closed or res.cursor is not None:
                     return False
+                if res.closed is not True and not model.soft_dead():
+                    return False
+            elif res.closed:
+                return False
             return True
 
-        return _drive(view, model, _cur_table(strategy, f["kind"], smin, smax), codes, g0, g1, g2, _risk_of(strategy, flt), tail, after)
+        spec = dict(f)
+        if strategy.endswith("_yp") and not npre:
+            spec["yp"] = True
+        models = _models(vals, n, 2, spec, k, variant, bool(npre))
+        if not npre:
+            run = _Run(f["apply"](res, k), models, _cur_table(strategy, f["kind"], smin, smax), after=after)
+        else:
+            run = _Run(f["pre"](res), models, _cur_table(strategy, f["kind0"], smin, smax), npre,
+                       _late_fn(res, f, k, variant), _cur_table(strategy, f["kind"], smin, smax), after=after)
+        return _drive(run, codes, g0, g1, g2, _risk_of(strategy, flt, npre), tail)
     finally:
         conn.close()
 
@@ -680,11 +790,11 @@ def _cur_table(strategy, kind, smin, smax) -> _Table:
     return _table(kind, smin, smax, strategy == "default")
 
 
-def h_cur(strategy: str, flt: str, k: int, nmax: int, nops: int, smin: int, smax: int, g0: int, g1: int, g2: int, tail: int, n: int,
-          m: int,
+def h_cur(strategy: str, flt: str, k: int, npre: int, nmax: int, nops: int, smin: int, smax: int, g0: int, g1: int, g2: int, tail: int,
+          n: int, m: int,
           v0: int, v1: int, v2: int, v3: int, v4: int, v5: int, c0: int, c1: int, c2: int, c3: int) -> bool:
     vals, codes = _args(nmax, nops, (v0, v1, v2, v3, v4, v5), (c0, c1, c2, c3))
-    return _run_cur(strategy, flt, k, nmax, smin, smax, g0, g1, g2, tail, n, m, vals, codes)
+    return _run_cur(strategy, flt, k, npre, nmax, smin, smax, g0, g1, g2, tail, n, m, vals, codes)
 
 
 # ------------------------------------------------------------------------------------------
@@ -694,7 +804,9 @@ META = {
                    "(engine/result.py, pure-Python engine/_result_cy.py) with scalars/mappings/columns/unique/yield_per "
                    "views, and on the real CursorResult with CursorFetchStrategy / BufferedRowCursorFetchStrategy / "
                    "FullyBufferedCursorFetchStrategy (engine/cursor.py) over a lazy pure-Python DBAPI cursor, compared call "
-                   "by call with a plain-list model (rows in order, projected, de-duplicated; documented exceptions). "
+                   "by call with a plain-list model (rows in order, projected, de-duplicated; documented exceptions; "
+                   "Result.closed and ResourceClosedError after close()/first()/one()/scalar*(); filters applied before any "
+                   "fetch and *late*, after rows were fetched through the same object). "
                    "Row count, first-column values, op codes, size arguments and max_row_buffer are symbolic.",
     "functions": [
         "engine._result_cy.BaseResultInternal.{_row_getter,_iterator_getter,_onerow_getter,_manyrow_getter,_allrows,"
@@ -720,8 +832,20 @@ META = {
     ],
     "stubs": ["DBAPI: lazy pure-Python cursor (props/C10.py _Cur over vlib/fakedb.py) with 2 columns; raises on use after close"],
     "assumptions": [
-        "after first()/one()/one_or_none()/scalar*() the model accepts either ResourceClosedError or the empty outcome "
-        "(the docstrings say 'closes' without fixing hard vs soft); after close() ResourceClosedError is required",
+        "closedness is an observable: after every call Result.closed must be False while the result is open or only "
+        "soft closed (exhausted) and True after close() and after first()/one()/one_or_none()/scalar()/scalar_one()/"
+        "scalar_one_or_none() whatever their outcome, and every later fetch must raise ResourceClosedError. Reading: "
+        "first() 'Closes the result set and discards remaining rows'; scalar() 'the object is fully closed, e.g. the "
+        "CursorResult.close() method will have been called'; changelog #7274 'All Result objects will now consistently raise "
+        "ResourceClosedError if they are used after a hard close, which includes the hard close that occurs after calling "
+        "single row or value methods like Result.first() and Result.scalar()'; test_resultset 'first(), scalar() and one() "
+        "which want to embed a hard close'. Left relaxed (undocumented): fetchmany(0)/partitions(0) on a closed result may "
+        "return the empty outcome instead of raising",
+        "filters applied late (unique/scalars/mappings/columns/yield_per after rows were fetched through the same object) "
+        "govern the remaining rows. Result.unique(): the rows returned 'will [be] filtered such that each row is returned "
+        "uniquely ... a Python set() is used to store these identities' -- whether rows handed out *before* unique() was "
+        "called belong to that set is not stated, so both readings are accepted (two models; a history passes if one of "
+        "them explains every observation); rows returned after unique() must be unique among themselves under both",
         "fetchmany(None)/partitions(None) without yield_per: any non-empty prefix of the deliverable rows is accepted "
         "(documented as backend specific); with yield_per(k>=1): exactly k",
         "unique() realises the first-column values at the hash-set boundary: one path per value",
@@ -731,18 +855,22 @@ META = {
 
 def _slices(configs, cursor=False):
     """Slices partition the history space of one configuration by history length, by the group of the first
-    (for length 3 also the second) call -- sized / row-at-a-time / closing -- and, for configurations where an
-    already attributed defect can show, into the histories that can trigger it (tail=2, first call symbolic)
-    and the rest (tail=1).  ``first`` = "nonterminal": histories of length >= 2 start with a call that leaves
-    the result open; what follows a closing first call is covered at full width by the "all" configurations.
+    (for length 3 also the second and third) call -- sized / row-at-a-time / closing -- and, for configurations
+    where an already attributed defect can show, into the histories that can trigger it (tail=2) and the rest
+    (tail=1).  ``first`` = "nonterminal": histories of length >= 2 start with a call that leaves the result
+    open; what follows a closing first call is covered at full width by the "all" configurations.  ``npre`` > 0:
+    that many (non-closing) calls come before the late filter, at least one call after it.
     Inputs that cannot influence the run (values beyond nmax, codes beyond the history length, max_row_buffer
     of strategies that do not read it) are fixed, so they are not symbolic at all."""
     out = []
     for cfg in configs:
         cfg = dict(cfg)
         first, maxops = cfg.pop("first"), cfg.pop("maxops")
-        risk = _risk_of(cfg.get("src", cfg.get("strategy")), cfg["flt"])
-        groups = (GROUP_SIZED, GROUP_ROW) if first == "nonterminal" else (GROUP_SIZED, GROUP_ROW, GROUP_CLOSING)
+        npre = cfg.setdefault("npre", 0)
+        risk = _risk_of(cfg.get("src", cfg.get("strategy")), cfg["flt"], npre)
+        open_groups = (GROUP_SIZED, GROUP_ROW)
+        allg = (GROUP_SIZED, GROUP_ROW, GROUP_CLOSING)
+        groups = open_groups if (first == "nonterminal" or npre) else allg
 
         def add(nops, g0, g1, g2, tail):
             d = dict(cfg)
@@ -755,24 +883,24 @@ def _slices(configs, cursor=False):
                 d["m"] = 0
             out.append(d)
 
-        allg = (GROUP_SIZED, GROUP_ROW, GROUP_CLOSING)
-        add(1, -1, -1, -1, 0)
-        for nops in range(2, maxops + 1):
+        if not npre:
+            add(1, -1, -1, -1, 0)
+        for nops in range(max(2, npre + 1), maxops + 1):
+            g1s = (-1,) if nops < 3 else (open_groups if npre >= 2 else allg)
             for g0 in groups:
-                if nops < 3:
-                    add(nops, g0, -1, -1, 1 if risk else 0)
-                else:
-                    for g1 in allg:
-                        for g2 in allg:
-                            add(nops, g0, g1, g2, 1 if risk else 0)
+                for g1 in g1s:
+                    for g2 in ((-1,) if nops < 3 else allg):
+                        add(nops, g0, g1, g2, 1 if risk else 0)
             if risk:
                 if nops < 3:
-                    add(nops, -1 if first == "all" else GROUP_SIZED, -1, -1, 2)
-                    if first != "all":
-                        add(nops, GROUP_ROW, -1, -1, 2)
+                    if groups is allg:
+                        add(nops, -1, -1, -1, 2)
+                    else:
+                        for g0 in groups:
+                            add(nops, g0, -1, -1, 2)
                 else:
                     for g0 in groups:
-                        for g1 in allg:
+                        for g1 in g1s:
                             add(nops, g0, g1, -1, 2)
     return out
 
@@ -788,6 +916,8 @@ def _configs(tier: str):
         core = rest = dict(nmax=4, smin=-1, smax=2, maxops=2, first="all")
         deep = dict(nmax=3, smin=-1, smax=2, maxops=3, first="all")  # histories of length 3
         deep_nt = dict(nmax=3, smin=-1, smax=2, maxops=3, first="nonterminal")
+    late1 = dict(nmax=3 if q else 4, smin=-1, smax=1 if q else 2, maxops=2, first="nonterminal")
+    late3 = dict(nmax=3, smin=-1, smax=1, maxops=3, first="nonterminal")
     mem, cur = [], []
 
     def M(src, flt, k=0, cls=None):
@@ -799,22 +929,51 @@ def _configs(tier: str):
     M("iter", "plain", cls=core if q else deep)
     M("iter", "uniq1", cls=core if q else deep_nt)
     M("merged", "plain", 1, cls=core)
-    for flt in ("scalars0", "mappings", "columns10", "uniq_scalars", "uniq_strategy"):
+    for flt in ("scalars0", "mappings", "uniq_scalars", "uniq_strategy"):
         M("iter", flt)
     M("iter", "yield_per", 2)
     M("sscalar", "uniq1")
-    M("chunked", "yield_per", 2)
+    if not q:
+        M("iter", "columns10")
+        M("chunked", "yield_per", 2)
     M("chunked_dyn", "plain")
     M("chunked_dyn", "yield_per", 2)
     M("frozen", "plain")
     M("frozen_pre", "uniq_cols0")
     M("merged", "uniq1", 1)
-    C("default", "plain")
+    C("default", "plain", cls=core)
     C("buffered", "plain", cls=core if q else deep_nt)
     C("fully", "plain", cls=core)
     C("buffered", "uniq_cols0")
     C("default_yp", "plain", 2)
-    C("buffered_dflt", "plain")
+    if not q:
+        C("buffered_dflt", "plain")
+    # filters applied late: one fetch, then the filter, then one more call (thorough: 1+2 and 2+1 calls)
+    lates = [dict(late1, npre=1)] if q else [dict(late1, npre=1, maxops=2), dict(late3, npre=1), dict(late3, npre=2)]
+    for lt in lates:
+        if lt["maxops"] == 3:
+            M("iter", "uniq1", cls=lt)
+            M("iter", "scalars_then_uniq", cls=lt)
+            C("buffered", "uniq_cols0", cls=lt)
+            continue
+        for flt in ("uniq1", "scalars0", "columns10", "scalars_then_uniq", "mappings_then_uniq"):
+            M("iter", flt, cls=lt)
+        M("iter", "yield_per", 2, cls=lt)
+        M("chunked", "yield_per", 2, cls=lt)
+        C("buffered", "uniq_cols0", cls=lt)
+        C("fully", "uniq_cols0", cls=lt)
+        C("default", "yield_per", 2, cls=lt)  # the strategy object is exchanged while rows have been fetched
+        C("fully", "scalars0", cls=lt)
+        if not q:
+            for flt in ("uniq_cols0", "mappings", "uniq_strategy", "uniq_scalars", "mappings_then_columns", "scalars_then_yp"):
+                M("iter", flt, 2, cls=lt)
+            M("sscalar", "uniq1", cls=lt)
+            M("merged", "uniq1", 1, cls=lt)
+            M("chunked_dyn", "uniq1", cls=lt)
+            C("buffered", "yield_per", 2, cls=lt)
+            C("default", "uniq_cols0", cls=lt)
+            C("buffered_dflt", "scalars_then_uniq", cls=lt)
+            C("fully", "mappings_then_uniq", cls=lt)
     if not q:
         M("iter", "uniq1")  # length <= 2 with every first call (the length-3 run starts with a non-closing call)
         C("buffered", "plain")
@@ -861,14 +1020,19 @@ def harnesses(tier: str) -> List[Harness]:
     b = {
         "first-column values": "0..2 where uniquing hashes them, unconstrained ints otherwise",
         "max_row_buffer": "1..7 symbolic", "yield_per": "2" if q else "1..3",
-        "configurations": sorted({"%s/%s" % (c["src"], c["flt"]) for c in mem} | {"cursor:%s/%s" % (c["strategy"], c["flt"]) for c in cur}),
+        "configurations": sorted({"%s/%s%s" % (c["src"], "late:" if c.get("npre") else "", c["flt"]) for c in mem}
+                                 | {"cursor:%s/%s%s" % (c["strategy"], "late:" if c.get("npre") else "", c["flt"]) for c in cur}),
     }
     if q:
-        b["core configurations (iter/plain, iter/uniq1, merged/plain; cursor buffered/plain, fully/plain)"] = _describe(core)
+        b["core configurations (iter/plain, iter/uniq1, merged/plain; cursor default/plain, buffered/plain, fully/plain)"] = _describe(core)
         b["other configurations"] = _describe(rest)
+        b["late-filter configurations (npre=1: one non-closing call, the filter, one call)"] = _describe(
+            [c for c in mem if c.get("npre")][0])
     else:
         b["all configurations"] = _describe(rest)
         b["additionally iter/plain (any first call) and iter/uniq1, cursor buffered/plain (first call leaves the result open)"] = _describe(deep)
+        b["late-filter configurations"] = "1 call + filter + 1 call (rows 0..4, sizes None,0..2); 1+2 and 2+1 calls (rows 0..3, " \
+            "sizes None,0..1) for iter/uniq1, iter/scalars_then_uniq, cursor buffered/uniq_cols0"
     META["bounds"][tier] = b
     return [
         # (budgets are CPU seconds per slice and only a cap)
@@ -878,16 +1042,23 @@ def harnesses(tier: str) -> List[Harness]:
 
 
 def _decode(hname, a):
-    f = FILTERS[a["flt"]]
-    T = _cur_table(a["strategy"], f["kind"], a["smin"], a["smax"]) if hname == "cur" else _table(f["kind"], a["smin"], a["smax"])
+    npre = a.get("npre", 0)
+    f = LATE[a["flt"]] if npre else FILTERS[a["flt"]]
+
+    def tab(kind):
+        return _cur_table(a["strategy"], kind, a["smin"], a["smax"]) if hname == "cur" else _table(kind, a["smin"], a["smax"])
+
     codes = [a["c%d" % i] for i in range(a["nops"])]
-    calls = [T.calls[c] for c in codes]
+    calls = [tab(f["kind0"] if t < npre else f["kind"]).calls[c] for t, c in enumerate(codes)]
     vals = [a["v%d" % i] for i in range(a["nmax"])]
     return calls, codes, vals
 
 
-def _fmt(calls):
-    return ",".join(OPS[o] + ("(%s)" % ("None" if z < 0 else z) if o in SIZED else "") for o, z in calls)
+def _fmt(calls, npre=0):
+    names = [OPS[o] + ("(%s)" % ("None" if z < 0 else z) if o in SIZED else "") for o, z in calls]
+    if npre:
+        names.insert(npre, "<late filter>")
+    return ",".join(names)
 
 
 K_ONEROW = "C10:_only_one_row:unique-ignores-seen-set"
@@ -898,34 +1069,54 @@ K_MERGED = "C10:MergedResult:close-does-not-close-merged-iterator"
 
 def _holds(fn, *a, **kw):
     from vlib.symx import Assume
+    _RELAX_CON[0] = True
     try:
         return bool(fn(*a, **kw))
     except Assume:
         return False
     except Exception:  # noqa: BLE001
         return False
+    finally:
+        _RELAX_CON[0] = False
+
+
+K_LATE_UNIQUE = "C10:FilterResult.unique:applied-after-fetching-is-ignored-by-memoized-getters"
+K_CHUNK_YP = "C10:ChunkedIteratorResult:yield_per-after-fetch-drops-buffered-chunk"
+K_CUR_EXHAUSTED = "C10:CursorResult:single-row-method-on-exhausted-result-does-not-hard-close"
 
 
 def classify(hname, args, rep):
     """A failure is attributed to a specific defect only if the *same input* passes when exactly that
     deviation is granted (variant model / differential configuration); anything else gets its own key."""
     a = dict(args)
+    npre = a.get("npre", 0)
     calls, codes, vals = _decode(hname, a)
-    cfg = "%s/%s" % (a.get("src", a.get("strategy")), a["flt"])
-    desc = "%s %s calls=%s n=%s vals=%s" % (hname, cfg, _fmt(calls), a["n"], vals)
+    cfg = "%s/%s%s" % (a.get("src", a.get("strategy")), "late:" if npre else "", a["flt"])
+    desc = "%s %s calls=%s n=%s vals=%s" % (hname, cfg, _fmt(calls, npre), a["n"], vals)
 
     def rerun(variant=None, **over):
         b = dict(a)
         b.update(over)
         if hname == "mem":
-            return _holds(_run_mem, b["src"], b["flt"], b["k"], b["nmax"], b["smin"], b["smax"], -1, -1, -1, 0, b["n"], vals, codes, variant)
-        return _holds(_run_cur, b["strategy"], b["flt"], b["k"], b["nmax"], b["smin"], b["smax"], -1, -1, -1, 0, b["n"], b["m"], vals, codes,
-                      variant)
+            return _holds(_run_mem, b["src"], b["flt"], b["k"], npre, b["nmax"], b["smin"], b["smax"], -1, -1, -1, 0, b["n"], vals, codes,
+                          variant)
+        return _holds(_run_cur, b["strategy"], b["flt"], b["k"], npre, b["nmax"], b["smin"], b["smax"], -1, -1, -1, 0, b["n"], b["m"],
+                      vals, codes, variant)
 
-    uniq = FILTERS[a["flt"]]["uniq"]
+    uniq = (LATE[a["flt"]] if npre else FILTERS[a["flt"]])["uniq"]
     if uniq and any(o in ONLY_ONE for o, _ in calls[1:]) and rerun("onerow-ignores-seen"):
         return (K_ONEROW, "first()/one()/scalar*() under unique() ignore the rows already seen (return or count a "
                           "duplicate of an earlier row): " + desc)
+    if npre and uniq and not a["flt"].endswith("_then_uniq") and rerun("late-reset-memoizations"):
+        return ("C10:Result.unique:applied-after-fetching-is-ignored-by-memoized-getters",
+                "Result.unique() called after rows were fetched has no effect on the memoized row getters: " + desc)
+    if npre and uniq and a["flt"].endswith("_then_uniq") and rerun("late-reset-memoizations"):
+        return (K_LATE_UNIQUE, "ScalarResult/MappingResult.unique() called after rows were fetched through the same object "
+                               "has no effect on fetchone/next/fetchmany/partitions/iteration (the memoized row getters "
+                               "are not reset; all() honours it): " + desc)
+    if hname == "mem" and npre and a["src"].startswith("chunked") and LATE[a["flt"]].get("yp") and rerun(src="iter"):
+        return (K_CHUNK_YP, "ChunkedIteratorResult.yield_per() after rows were fetched drops the rest of the chunk held by "
+                            "the iterator: " + desc)
     if hname == "cur" and a["strategy"].startswith("fully") and any(o in SIZED and z == 0 for o, z in calls[:-1]) \
             and rerun("size0-closes"):
         return (K_FULLY0, "fetchmany(0)/partitions(0) on the fully buffered strategy closes the result and discards "
@@ -937,16 +1128,27 @@ def classify(hname, args, rep):
             and rerun(src="iter"):
         return (K_MERGED, "MergedResult: close()/one()... do not close the merged row iterator (rows are still "
                           "delivered / no ResourceClosedError): " + desc)
-    return ("C10:%s:%s:%s" % (hname, cfg, _fmt(calls)), desc + " disagrees with the list model (%s)" % rep.get("exception"))
+    single = [OPS[o] for o, _ in calls if o in ONLY_ONE]
+    if single and hname == "cur" and rerun("no-hard-close-when-exhausted-before"):
+        return (K_CUR_EXHAUSTED, "CursorResult: first()/one()/scalar*() on a result that is already exhausted (soft closed) do "
+                                 "not hard close it (closed stays False, later fetches return empty results instead of "
+                                 "raising ResourceClosedError): " + desc)
+    if single and rerun("soft-close-after-single-row"):
+        return ("C10:%s:%s:not-hard-closed-after-%s" % (hname, a.get("src", a.get("strategy")), single[0]),
+                "after %s() the result is not hard closed (Result.closed is False / later fetches return empty results "
+                "instead of raising ResourceClosedError): " % single[0] + desc)
+    return ("C10:%s:%s:%s" % (hname, cfg, _fmt(calls, npre)), desc + " disagrees with the list model (%s)" % rep.get("exception"))
 
 
-# Documentation only (not used by the check): a patch that makes the four findings above disappear (checked with
-# this module against a patched copy of lib/, and with test/base/test_result.py, test/sql/test_resultset.py,
-# test/orm/test_query.py, test/orm/test_loading.py: all pass).
-SUGGESTED_FIXES = r"""
+# Documentation only (not used by the check): a patch against the current tree that makes the open findings
+# disappear -- K_ONEROW, K_CHUNKDYN + K_CHUNK_YP (one fix), K_LATE_UNIQUE, K_CUR_EXHAUSTED.  Checked with this module
+# against a patched copy of lib/ (quick tier: exit 0, holds-within-bounds, no KNOWN-FINDING line) and with
+# test/base/test_result.py, test/sql/test_resultset.py, test_insert_exec.py, test_returning.py, test/engine/test_execute.py,
+# test/orm/test_query.py, test_loading.py, test_eager_relations.py, test_deprecations.py: 2277 passed.
+SUGGESTED_FIXES = r'''
 diff -ru /repo/lib/sqlalchemy/engine/_result_cy.py lib/sqlalchemy/engine/_result_cy.py
 --- /repo/lib/sqlalchemy/engine/_result_cy.py	2026-09-11 03:18:07.352572464 +0000
-+++ lib/sqlalchemy/engine/_result_cy.py	2026-09-22 04:16:47.674909483 +0000
++++ lib/sqlalchemy/engine/_result_cy.py	2026-09-22 16:18:51.690937273 +0000
 @@ -541,14 +541,37 @@
              else:
                  return None
@@ -1012,21 +1214,48 @@ diff -ru /repo/lib/sqlalchemy/engine/_result_cy.py lib/sqlalchemy/engine/_result
                          # here, we have a row and it's different
                          break
 diff -ru /repo/lib/sqlalchemy/engine/cursor.py lib/sqlalchemy/engine/cursor.py
---- /repo/lib/sqlalchemy/engine/cursor.py	2026-09-11 03:18:07.352572464 +0000
-+++ lib/sqlalchemy/engine/cursor.py	2026-09-22 02:52:21.515667176 +0000
-@@ -1542,7 +1542,7 @@
+--- /repo/lib/sqlalchemy/engine/cursor.py	2026-09-22 10:10:14.262909483 +0000
++++ lib/sqlalchemy/engine/cursor.py	2026-09-22 16:19:29.360018963 +0000
+@@ -1193,6 +1193,19 @@
  
-         rb = self._rowbuffer
-         rows = [rb.popleft() for _ in range(min(size, len(rb)))]
--        if not rows:
-+        if not rows and not rb:
-             result._soft_close()
-         return rows
+     __slots__ = ()
  
++    def fetchone(
++        self,
++        result: CursorResult[Unpack[TupleAny]],
++        dbapi_cursor: DBAPICursor,
++        hard_close: bool = False,
++    ) -> Any:
++        row = self._non_result(result, None)
++        if hard_close:
++            # first() / one() / scalar() on a result that is exhausted
++            # already: these methods leave the result hard closed
++            result._soft_close(hard=True)
++        return row
++
+     def _non_result(
+         self,
+         result: CursorResult[Unpack[TupleAny]],
 diff -ru /repo/lib/sqlalchemy/engine/result.py lib/sqlalchemy/engine/result.py
---- /repo/lib/sqlalchemy/engine/result.py	2026-09-11 03:18:07.354825110 +0000
-+++ lib/sqlalchemy/engine/result.py	2026-09-22 02:52:21.490174009 +0000
-@@ -1941,10 +1941,19 @@
+--- /repo/lib/sqlalchemy/engine/result.py	2026-09-22 10:10:11.146909483 +0000
++++ lib/sqlalchemy/engine/result.py	2026-09-22 16:18:51.698225602 +0000
+@@ -1326,6 +1326,7 @@
+ 
+         self._unique_filter_state = real_result._unique_filter_state
+ 
++    @_generative
+     def unique(self, strategy: Optional[_UniqueFilterType] = None) -> Self:
+         """Apply unique filtering to the objects returned by this
+         :class:`_engine.ScalarResult`.
+@@ -1608,6 +1609,7 @@
+         if result._source_supports_scalars:
+             self._metadata = self._metadata._reduce([0])
+ 
++    @_generative
+     def unique(self, strategy: Optional[_UniqueFilterType] = None) -> Self:
+         """Apply unique filtering to the objects returned by this
+         :class:`_engine.MappingResult`.
+@@ -1941,10 +1943,19 @@
          self.chunks = chunks
          self._source_supports_scalars = source_supports_scalars
          self.raw = raw
@@ -1047,7 +1276,7 @@ diff -ru /repo/lib/sqlalchemy/engine/result.py lib/sqlalchemy/engine/result.py
      @_generative
      def yield_per(self, num: int) -> Self:
          # TODO: this throws away the iterator which may be holding
-@@ -1954,7 +1963,7 @@
+@@ -1954,7 +1965,7 @@
          # keep track.
  
          self._yield_per = num
@@ -1056,7 +1285,7 @@ diff -ru /repo/lib/sqlalchemy/engine/result.py lib/sqlalchemy/engine/result.py
          return self
  
      def _soft_close(self, hard: bool = False, **kw: Any) -> None:
-@@ -1965,7 +1974,7 @@
+@@ -1965,7 +1976,7 @@
          self, size: Optional[int] = None
      ) -> List[_InterimRowType[Row[Unpack[TupleAny]]]]:
          if self.dynamic_yield_per:
@@ -1065,16 +1294,7 @@ diff -ru /repo/lib/sqlalchemy/engine/result.py lib/sqlalchemy/engine/result.py
          return super()._fetchmany_impl(size=size)
  
  
-@@ -2008,5 +2017,8 @@
-     def _soft_close(self, hard: bool = False, **kw: Any) -> None:
-         for r in self._results:
-             r._soft_close(hard=hard, **kw)
-+        # also drop the merged iterator, which still refers to the
-+        # iterators of the sub-results as they were before closing
-+        super()._soft_close(hard=hard, **kw)
-         if hard:
-             self.closed = True
-"""
+'''
 
 
 def run(tier: str, seed: int):
